@@ -169,6 +169,7 @@ EXTRA_FILES = {"C16": ["Forms"], "C19": ["C19b"], "C20": ["C20b"], "C17": ["C17b
 
 # which Tie theorems (source-regenerated tables = model tables) serve which property
 TIE_MAP = {
+    "C02": ["tie_layerScalar"],
     "C03": ["tie_sampleSide", "tie_formConversions"],
     "C16": ["tie_formConversions"],
     "C05": ["tie_scalarLogic"],
